@@ -108,9 +108,11 @@ Print Assumptions C12_xml_doc_start_tags.
    (XmlQn.qn_same_prefix_clash_refuted = listed finding xml-same-prefix-value-clash). Regression Examples in XmlQn.v for
    the shapes of the seeded changes C12-3 (qn_value_prefix_redefined) and C12-8 (qn_generated_prefix_avoids_reserved),
    for hidden definitions and for the former finding xml-value-ns-redeclared.
-   Tie to the code: the oracle comps_doc.QNamesX checks this law on libyang's bytes with expat; XmlQn.v is not extracted and
-   not run against the library (PARTIAL in that sense: a model of the start tag only; element names, character data and
-   the byte level are those of XmlDoc.v, whose values are canonical strings). *)
+   Tie to the code: XmlQn.open_tag is extracted and compared byte for byte with the start tags libyang prints for generated
+   elements (T2 component QnTagModel: namespace definitions, metadata attributes with prefixes and values; two nested
+   tags per case, clash cases included); the oracle comps_doc.QNamesX checks the law itself on libyang's bytes with expat.
+   XmlQn.v is a model of the start tag only: element names, character data and the byte level of the rest are XmlDoc.v's,
+   whose values are canonical strings. *)
 From LY Require Import XmlQn.
 
 Theorem C12_xml_value_prefixes :
